@@ -52,7 +52,7 @@ def run(ctx):
     total = None
     # the two harness binaries are compiled in the background while TLC runs
     ctx.overlay_json()
-    pool = concurrent.futures.ThreadPoolExecutor(max_workers=2)
+    pool = concurrent.futures.ThreadPoolExecutor(max_workers=1)     # one at a time: go_test_build is not re-entrant
     builds = {pkg: pool.submit(ctx.go_test_build, pkg) for pkg in PKGS}
     if ctx.replay:
         cases = [r["case"] for r in json.load(open(ctx.replay))]
